@@ -78,7 +78,16 @@ class DefaultHandler(BaseHandler):
                 msg_file_name = "%s.msg" % time.time()
             # store the message sequence
             self.msg_sequence[peer_addr] = last_msg_seq + 1
-            msg_file = open(os.path.join(msg_path, msg_file_name), 'a')
+            msg_file_path = os.path.join(msg_path, msg_file_name)
+            torn = False
+            if os.path.exists(msg_file_path) and os.path.getsize(msg_file_path) > 0:
+                with open(msg_file_path, 'rb') as fh:
+                    fh.seek(-1, os.SEEK_END)
+                    torn = fh.read(1) != b'\n'
+            msg_file = open(msg_file_path, 'a')
+            if torn:
+                # terminate a record cut short by a crash: the next one starts on its own line
+                msg_file.write('\n')
             msg_file.flush()
             self.peer_files[peer_addr] = (msg_path, msg_file)
             LOG.info('BGP message file %s', msg_file_name)
